@@ -55,6 +55,7 @@ def gen_query(rng, tier, virtual=False):
     if hidden and rng.random() < .25:
         case["latents"] = rng.sample(hidden, rng.randint(1, min(2, len(hidden))))     # declared latent, never queried / observed
     case["virt"] = []
+    case["warm"] = rng.random() < .4
     if virtual:
         cand = [v for v in range(n) if v not in ev]
         for v in rng.sample(cand, rng.randint(1, min(2, len(cand)))):
@@ -145,6 +146,15 @@ def run_query(case, drv):
     if case["virt"]:
         kw["virtual_evidence"] = [TabularCPD(pn[v], card[v], [[float(Fraction(x))] for x in L],
                                              state_names={pn[v]: [gen.lab(l) for l in labels[v]]}) for v, L in case["virt"]]
+        if case.get("warm"):
+            # the engine has already answered a query with ANOTHER likelihood on the same variables (and one without any)
+            try:
+                other = [TabularCPD(pn[v], card[v], [[float(Fraction(x))] for x in (L[1:] + L[:1])],
+                                    state_names={pn[v]: [gen.lab(l) for l in labels[v]]}) for v, L in case["virt"]]
+                ve.query([pn[v] for v in case["q"]], evidence=None, virtual_evidence=other, joint=True, show_progress=False)
+                ve.query([pn[v] for v in case["q"]], evidence=None, show_progress=False)
+            except Exception:
+                pass
     evidence = {pn[v]: gen.lab(labels[v][i]) for v, i in case["ev"]}
     tags = dict(order=str(case["order"]), joint=case["joint"], shape=case["shape"], n=len(names), nev=len(case["ev"]),
                 virt=len(case["virt"]), latents=len(case.get("latents", [])))
@@ -175,12 +185,12 @@ def gen_all_orders(rng, tier):
     variables, and EVERY permutation of the variables to eliminate (at most 120) plus all heuristics"""
     n = rng.randint(4, 5 if tier == "quick" else 6)
     case = gen.rand_bn(rng, nmin=n, nmax=n, maxcard=3, name_kind=rng.choice(["str", "word", "int", "int0"]), shape="gnp_dense", mincard=2)
-    q = rng.sample(range(n), rng.choice([1, 1, 2]))
+    q = rng.sample(range(n), rng.choice([1, 2, 3]))
     rest = [v for v in range(n) if v not in q]
     ev = rng.sample(rest, rng.choice([0, 0, 1]))
     case["q"] = q
     case["ev"] = [[v, rng.randrange(case["card"][v])] for v in ev]
-    case["joint"] = rng.random() < .7
+    case["joint"] = rng.random() < .5
     case["virt"] = []
     return case
 
